@@ -12,7 +12,8 @@ RULE = ('generated documents (twin profiles: names/texts from pools of 2 and dup
         'Oracle: str(soup) after the edit equals the splice of the source string at the target span / at the start offset '
         'of content element i; a refused operation (content operation on a command other than \\item, parent.remove of a '
         'child that lives in an argument) must leave the text unchanged. Non-trivial = the target has an identical twin '
-        'before it, sits in an argument group, or the index is interior; distinct by (source, operation, target)')
+        'before it, sits in an argument group, or the index is interior; distinct by (source, operation, target)'
+        '. New material also includes empty strings among other items and 20 / 33 items in one call')
 ASSUMPTIONS = [
     'spans come from the generator, never from TexSoup; only the insertion offsets use the tree\'s own split of a body into elements',
     'parent.remove(child) may refuse for a child of an argument group (remove is documented over the node\'s own contents)',
